@@ -131,3 +131,47 @@ Fixpoint run_journal_a (ord : bool) (permissive : bool) (pl : pool) (hist : list
           end
       end
   end.
+
+(* ---- automated transactions: what the rules add to an accepted transaction reaches the accounts together with it
+   (journal_t::add_xact: finalize, then extend_xact; the postings made carry ITEM_GENERATED), so every LATER `= AMOUNT`
+   counts them; the written assertions of the transaction itself were judged before, while its lines were read ---- *)
+Section WithAutomated.
+Variable ext : (comm -> Z) -> list post -> list post.
+
+Fixpoint run_journal_x (ord permissive : bool) (pl : pool) (hist : list apost)
+         (xs : list (list wpost)) : list (res outcome) :=
+  match xs with
+  | [] => []
+  | x :: xs' =>
+      let (r, pl') := resolve_posts ord permissive pl hist [] x in
+      match r with
+      | Err e => Err e :: run_journal_x ord permissive pl' hist xs'
+      | Ok ps =>
+          match finalize ord (cp_of pl') None ps with
+          | Ok (Accepted ps') =>
+              let all := ps' ++ ext (cp_of pl') ps' in
+              Ok (Accepted all) :: run_journal_x ord permissive pl' (hist ++ posts_to_history all) xs'
+          | other => other :: run_journal_x ord permissive pl' hist xs'
+          end
+      end
+  end.
+End WithAutomated.
+
+(* rules of the shape  = /^ACCOUNT$/  with lines  [PREFIX$account] MULT  or  [PREFIX] MULT  (a commodity-less amount
+   multiplies the matched posting's; xact.cc extend_xact): one generated posting per line for every posting of exactly
+   that account which no rule made *)
+Record auto_line : Type := mkAL { al_prefix : str; al_use_acct : bool; al_kind : pkind; al_mult : amount }.
+Record auto_rule : Type := mkAR { ar_match : str; ar_lines : list auto_line }.
+
+Definition made_by_rule (p : post) : bool := p_generated p && negb (p_calculated p).
+
+Definition auto_ext (rules : list auto_rule) (cp : comm -> Z) (ps : list post) : list post :=
+  flat_map (fun r =>
+    flat_map (fun p =>
+      if made_by_rule p || negb (str_eqb (p_acct p) (ar_match r)) then []
+      else match p_amt p with
+           | Some ia => map (fun l => mkPost (al_prefix l ++ (if al_use_acct l then p_acct p else [])) (al_kind l)
+                                             (Some (amt_mul cp ia (al_mult l))) None None false true false)
+                            (ar_lines r)
+           | None => []
+           end) ps) rules.
